@@ -29,7 +29,7 @@ theorem fista_iterations_le_max_iter (P : Problem α) (pr : Params α) (stop : N
   · rw [h.2.2.2.2.2.1]; exact Nat.zero_le _
   · obtain ⟨s, hk, _, _, hr⟩ := h
     rw [hr, (exitBlock_fields P pr _ _ _ x0 y Sig errz0).2.2.1, (headStep_curr P pr stop oot _).2.1,
-      (proxStage_k P pr s).1]
+      (proxStage_k P pr stop s).1]
     exact hk
 
 /-- **Status and ε come from the last loop head**: there is a loop state `s` (the state at the top
@@ -45,24 +45,24 @@ theorem fista_result_at_last_head (P : Problem α) (pr : Params α) (stop : Nat 
     (h : EndsAt P pr stop oot x0 y Sig errz0 (run P pr stop oot x0 y Sig errz0 gV nan inf)) :
     ∃ (s : St α) (np tick : Nat),
       (run P pr stop oot x0 y Sig errz0 gV nan inf).stats.iterations = s.k ∧
-      (run P pr stop oot x0 y Sig errz0 gV nan inf).stats.eps = epsOf P pr (proxStage P pr s).curr ∧
+      (run P pr stop oot x0 y Sig errz0 gV nan inf).stats.eps = epsOf P pr (proxStage P pr stop s).curr ∧
       (run P pr stop oot x0 y Sig errz0 gV nan inf).stats.status =
-        statusChain pr.tolerance pr.maxIter pr.maxNoProgress s.k (epsOf P pr (proxStage P pr s).curr)
+        statusChain pr.tolerance pr.maxIter pr.maxNoProgress s.k (epsOf P pr (proxStage P pr stop s).curr)
           np oot (stop tick) ∧
       (run P pr stop oot x0 y Sig errz0 gV nan inf).stats.status ≠ .Busy ∧
       (run P pr stop oot x0 y Sig errz0 gV nan inf).callbacks.getLast? =
         some { k := s.k, status := (run P pr stop oot x0 y Sig errz0 gV nan inf).stats.status,
-               it := (proxStage P pr s).curr, fbe := (proxStage P pr s).curr.fbe, t := s.t,
+               it := (proxStage P pr stop s).curr, fbe := (proxStage P pr stop s).curr.fbe, t := s.t,
                eps := (run P pr stop oot x0 y Sig errz0 gV nan inf).stats.eps } ∧
       (run P pr stop oot x0 y Sig errz0 gV nan inf).callbacks.length = s.k + 1 ∧
-      (run P pr stop oot x0 y Sig errz0 gV nan inf).stats.finalGamma = (proxStage P pr s).curr.gamma ∧
-      (run P pr stop oot x0 y Sig errz0 gV nan inf).stats.finalH = (proxStage P pr s).curr.hxhat := by
+      (run P pr stop oot x0 y Sig errz0 gV nan inf).stats.finalGamma = (proxStage P pr stop s).curr.gamma ∧
+      (run P pr stop oot x0 y Sig errz0 gV nan inf).stats.finalH = (proxStage P pr stop s).curr.hxhat := by
   obtain ⟨s, hk, hcbs, hst, hr⟩ := h
-  refine ⟨s, noProgressUpdate (proxStage P pr s).noProgress (proxStage P pr s).k pr.maxNoProgress
-    ((proxStage P pr s).curr.xhat == (proxStage P pr s).prev),
-    (proxStage P pr s).tick + epsTicks pr.stopCrit, ?_⟩
+  refine ⟨s, noProgressUpdate (proxStage P pr stop s).noProgress (proxStage P pr stop s).k pr.maxNoProgress
+    ((proxStage P pr stop s).curr.xhat == (proxStage P pr stop s).prev),
+    (proxStage P pr stop s).tick + epsTicks pr.stopCrit, ?_⟩
   rw [hr]
-  have hpk := proxStage_k P pr s
+  have hpk := proxStage_k P pr stop s
   unfold exitBlock
   simp only []
   refine ⟨?_, ?_, ?_, ?_, ?_, ?_, ?_, ?_⟩
@@ -80,12 +80,12 @@ theorem fista_result_at_last_head (P : Problem α) (pr : Params α) (stop : Nat 
     oracle's answer at the iterate's *own* `x̂`, `ŷ(x̂)` — also after step-size backtracking
     (in the source this is `eval_grad_ψx̂` placed after the quadratic-upper-bound loop; before the
     repair it preceded the loop and ε was computed from ∇ψ of a rejected `x̂`). -/
-theorem fista_eps_fresh_gradient (P : Problem α) (pr : Params α) (s : St α)
+theorem fista_eps_fresh_gradient (P : Problem α) (pr : Params α) (stop : Nat → Bool) (s : St α)
     (hn : requiresGradHat pr.stopCrit = true) :
-    (proxStage P pr s).curr.gradPsiHat
-        = P.gradL (proxStage P pr s).curr.xhat (proxStage P pr s).curr.yhat ∧
-    (proxStage P pr s).curr.yhat = (P.psi (proxStage P pr s).curr.xhat).2 := by
-  refine ⟨proxStage_gradHat P pr s hn, (proxStage_good P pr s).2 ?_⟩
+    (proxStage P pr stop s).curr.gradPsiHat
+        = P.gradL (proxStage P pr stop s).curr.xhat (proxStage P pr stop s).curr.yhat ∧
+    (proxStage P pr stop s).curr.yhat = (P.psi (proxStage P pr stop s).curr.xhat).2 := by
+  refine ⟨proxStage_gradHat P pr stop s hn, (proxStage_good P pr stop s).2 ?_⟩
   have : needGradHat pr = true := hn
   simp [this]
 
